@@ -106,6 +106,7 @@ macro_rules! whitespace {
         }
     };
 }
+whitespace!(c06_skip_whitespace_2, 2, 5);
 whitespace!(c06_skip_whitespace_3, 3, 6);
 whitespace!(c06_skip_whitespace_4, 4, 7);
 
@@ -231,6 +232,7 @@ crate::list![
     c06_keyword_or_ident_4,
     c06_number_ascii_5,
     c06_ipv4_ascii_5,
+    c06_skip_whitespace_2,
     c06_skip_whitespace_3,
     c06_skip_whitespace_4,
     c06_f_string_part_3,
